@@ -137,6 +137,41 @@ def corrupt_for_selftest(lines, dirty_lines=()):
     return out, done
 
 
+def judge_in_chunks(lines, cd, tag, n_chunks):
+    """Sessions are independent (the monitor resets at every session event), so a long trace is cut at session
+    boundaries and the pieces are judged by parallel TLC processes; line numbers are mapped back."""
+    starts = [i for i, l in enumerate(lines) if '"ev":"session"' in l and json.loads(l).get("ev") == "session"]
+    if n_chunks <= 1 or len(starts) < 2:
+        p = os.path.join(cd, "chunk-0.ndjson")
+        open(p, "w").write("\n".join(lines) + "\n")
+        return vlib.tlc_trace("CypherTrace", p, tag, timeout=10800)
+    per = max(1, len(lines) // n_chunks)
+    cuts, last = [0], 0
+    for st in starts:
+        if st - last >= per:
+            cuts.append(st)
+            last = st
+    cuts.append(len(lines))
+    pieces = [(cuts[i], cuts[i + 1]) for i in range(len(cuts) - 1) if cuts[i] < cuts[i + 1]]
+    from concurrent.futures import ThreadPoolExecutor
+
+    def run(k):
+        a, b = pieces[k]
+        p = os.path.join(cd, "chunk-%d.ndjson" % k)
+        open(p, "w").write("\n".join(lines[a:b]) + "\n")
+        f, info = vlib.tlc_trace("CypherTrace", p, "%s-c%d" % (tag, k), timeout=10800)
+        for x in f:
+            x["at"] += a
+        return f, info
+    findings, total = [], {"distinct": 0, "states_generated": 0, "chunks": len(pieces)}
+    with ThreadPoolExecutor(max_workers=6) as ex:
+        for f, info in ex.map(run, range(len(pieces))):
+            findings += f
+            total["distinct"] += info.get("distinct", 0)
+            total["states_generated"] += info.get("states_generated", 0)
+    return findings, total
+
+
 def cypher_family(tier, seed, sessions=None, tag="main"):
     cd = cache_dir("cypher-" + tag, tier, seed)
     res_p = os.path.join(cd, "result.json")
@@ -154,8 +189,8 @@ def cypher_family(tier, seed, sessions=None, tag="main"):
     vlib.write_ndjson(sp, ss)
     stats = vlib.nvx(["cypher", "--in", sp, "--out", tp, "--scratch", os.path.join(cd, "scratch")])
     shutil.rmtree(os.path.join(cd, "scratch"), ignore_errors=True)
-    findings, info = vlib.tlc_trace("CypherTrace", tp, "cytrace-" + tag + "-" + tier)
     lines = open(tp).read().splitlines()
+    findings, info = judge_in_chunks(lines, cd, "cytrace-" + tag + "-" + tier, 1 if len(lines) < 4000 else 10)
     census, errs, nrows, nonempty = {}, {}, {}, {}
     for line in lines:
         e = json.loads(line)
